@@ -200,9 +200,16 @@ def render(doc, lines=None) -> str:
 
 def fault_line(rng, doc):
     """A line that is neither a data row, a comment nor blank. Returns (class, text)."""
-    k = int(rng.integers(0, 4))
+    k = int(rng.integers(0, 5))
     nfields = 7 + doc["ask"]
     good = ["7", "3", "1.5", "-2.25", "0.5", "1.0", "3"] + ["4.5"] * doc["ask"]
+    if k == 4:
+        # too few fields or a non-numeric token, followed by a '#' remark on the same line: the line
+        # starts like a row, so it is not a comment line, and it is not a complete row either
+        m = int(rng.integers(1, 6))
+        body = " ".join(good[:m]) if rng.random() < 0.6 else "three 3 2 0 0 .5 2"
+        return "malformed-row-with-remark", body + str(rng.choice([" # r and pid missing", "#", " #x",
+                                                                    "\t# id"]))
     if k == 0:
         m = int(rng.integers(1, 7))
         return "too-few-fields", " ".join(good[:m])
